@@ -13,9 +13,14 @@ Local Open Scope N_scope.
    all_small p l  : every palette met while running l from p is small
    keeps i o      : o is not a set on index i, not a resize to i or less, not a clear
    bytes_pal p    : every channel is a byte (always so in Rust: the fields are u8)
+   colours p      : map crgb (pcolors p)
+   single_line    : generated from `fn single_line` of the source (carriage return / line feed -> blank); the generated
+                    printers of title / author / description / colour names apply it, as the `format!` calls do
+   verbatim_export: the exporters over the same format strings with the texts copied as they are (the code before the
+                    fix of the finding metadata-line-feed-roundtrip-colours-differ)
    wf_meta f p    : title/author/description (and colour names for Ice) contain no line feed; True for Hex and Pal
-                    (its negation is the known class KnownC16_1, see export_import_outside_known)
-   colours p      : map crgb (pcolors p) *)
+                    (its negation is the class KnownC16_1 of that finding)
+   no_breaks_meta : no carriage return and no line feed in title / author / description / any colour name *)
 
 (* ---- (a) index laws ---------------------------------------------------------------------------- *)
 
@@ -94,7 +99,8 @@ Proof. exact ega_roundtrip_total_proof. Qed.
 
 (* ---- (c) palette files -------------------------------------------------------------------------- *)
 
-Theorem export_import : forall f p, bytes_pal p -> wf_meta f p -> load f (export f p) = Some (colours p).
+(* EVERY palette (any length, any title / author / description / colour names) comes back from its own file *)
+Theorem export_import : forall f p, bytes_pal p -> load f (export f p) = Some (colours p).
 Proof. exact export_import_proof. Qed.
 
 Theorem export_import_hex : forall p, bytes_pal p -> load_hex (export_hex p) = Some (map crgb (pcolors p)).
@@ -103,31 +109,31 @@ Proof. exact export_import_hex_proof. Qed.
 Theorem export_import_pal : forall p, bytes_pal p -> load_pal (export_pal p) = Some (map crgb (pcolors p)).
 Proof. exact export_import_pal_proof. Qed.
 
-Theorem export_import_gpl : forall p, bytes_pal p ->
-  no_nl (ptitle p) -> no_nl (pauthor p) -> no_nl (pdescription p) ->
-  load_gpl (export_gpl p) = Some (map crgb (pcolors p)).
+Theorem export_import_gpl : forall p, bytes_pal p -> load_gpl (export_gpl p) = Some (map crgb (pcolors p)).
 Proof. exact export_import_gpl_proof. Qed.
 
-Theorem export_import_ice : forall p, bytes_pal p ->
-  no_nl (ptitle p) -> no_nl (pauthor p) -> no_nl (pdescription p) -> names_ok p ->
-  load_ice (export_ice p) = Some (map crgb (pcolors p)).
+Theorem export_import_ice : forall p, bytes_pal p -> load_ice (export_ice p) = Some (map crgb (pcolors p)).
 Proof. exact export_import_ice_proof. Qed.
 
-Theorem export_import_txt : forall p, bytes_pal p ->
-  no_nl (ptitle p) -> no_nl (pauthor p) -> no_nl (pdescription p) ->
-  load_txt (export_txt p) = Some (map crgb (pcolors p)).
+Theorem export_import_txt : forall p, bytes_pal p -> load_txt (export_txt p) = Some (map crgb (pcolors p)).
 Proof. exact export_import_txt_proof. Qed.
 
-(* The same statement with the known class spelled out: outside KnownC16_1 (a line feed in title / author /
-   description / colour name of a format that writes them) every palette comes back. *)
-Theorem export_import_outside_known : forall f p, bytes_pal p -> ~ KnownC16_1 f p ->
-  load f (export f p) = Some (colours p).
-Proof. exact export_import_outside_known_proof. Qed.
+(* the sanitising step changes nothing in the file of a palette whose texts have no line break *)
+Theorem export_unchanged_without_breaks : forall f p, no_breaks_meta p -> export f p = verbatim_export f p.
+Proof. exact export_unchanged_without_breaks_proof. Qed.
 
-(* … and inside the class the property does fail: title "x\n1 2 3 y" makes GPL read a colour out of the title *)
+(* Before the fix (texts copied verbatim) the round trip held outside the class KnownC16_1 (a line feed in title /
+   author / description / colour name of a format that writes them) … *)
+Theorem verbatim_export_import_outside_known : forall f p, bytes_pal p -> ~ KnownC16_1 f p ->
+  load f (verbatim_export f p) = Some (colours p).
+Proof. exact verbatim_export_import_outside_known_proof. Qed.
+
+(* … and failed inside it: title "x\n1 2 3 y" made GPL read a colour out of the title.  The file the code writes now
+   (last conjunct) gives the palette back. *)
 Theorem known_1_witness :
   bytes_pal known_1_pal /\ KnownC16_1 Gpl known_1_pal /\
-  load Gpl (export Gpl known_1_pal) = Some [(1, 2, 3); (9, 9, 9)] /\ colours known_1_pal = [(9, 9, 9)].
+  load Gpl (verbatim_export Gpl known_1_pal) = Some [(1, 2, 3); (9, 9, 9)] /\ colours known_1_pal = [(9, 9, 9)] /\
+  load Gpl (export Gpl known_1_pal) = Some [(9, 9, 9)].
 Proof. exact known_1_witness_proof. Qed.
 
 (* The defect fixed in /repo (GPL_COLOR_REGEX ended in \s+(.+)): with that regex the two colours of a palette
@@ -148,6 +154,22 @@ Proof.
   split; [repeat constructor|]. split; [|reflexivity].
   intros []; cbn; repeat split; repeat constructor; discriminate.
 Qed.
+
+(* a palette with line feeds everywhere: title "a\n7 8 9", description "\nFF070809", author "\n", name "n\n070809" *)
+Definition sample_nl : palette :=
+  mkPal [97; 10; 55; 32; 56; 32; 57] [10; 70; 70; 48; 55; 48; 56; 48; 57] [10]
+        [mkColor (Some [110; 10; 48; 55; 48; 56; 48; 57]) (1, 2, 3); unnamed (4, 5, 6)].
+
+Example sample_nl_files : bytes_pal sample_nl /\ (forall f, load f (export f sample_nl) = Some [(1, 2, 3); (4, 5, 6)]) /\
+  load Gpl (verbatim_export Gpl sample_nl) = Some [(7, 8, 9); (1, 2, 3); (4, 5, 6)] /\
+  load Ice (verbatim_export Ice sample_nl) = Some [(255, 7, 8); (7, 8, 9); (1, 2, 3); (4, 5, 6)] /\
+  load Txt (verbatim_export Txt sample_nl) = Some [(7, 8, 9); (1, 2, 3); (4, 5, 6)].
+Proof.
+  split; [repeat constructor|]. split; [intros []; vm_compute; reflexivity|]. repeat split; vm_compute; reflexivity.
+Qed.
+
+Example single_line_sample : single_line [97; 13; 10; 98; 10] = [97; 32; 32; 98; 32] /\ single_line [99; 97; 102; 233] = [99; 97; 102; 233].
+Proof. vm_compute. split; reflexivity. Qed.
 
 Example sample_files : forall f, load f (export f sample) = Some [(1, 2, 3); (255, 0, 254); (1, 2, 3); (0, 170, 85)].
 Proof. intros []; vm_compute; reflexivity. Qed.
